@@ -245,7 +245,7 @@ def run_check(pid, tier, only=None):
                         if rr["state"] in ("EXEC_ERR", "POST_ERR") and v == "discharged":
                             # the body raised in reach mode but not in check mode: cannot happen for a sound harness
                             harness_errors.append("%s%s twin %s: %s" % (ob.name, _pp(r["part"]), l, rr["message"][:200]))
-                if not part_reached and v == "discharged" and ob.labels:
+                if not part_reached and v == "discharged" and r["reach"]:
                     # a partition in which no label is reachable proves nothing
                     if all(rr["state"] == "CONFIRMED" for rr in r["reach"].values()):
                         harness_errors.append("%s%s: vacuous partition (no reach label reachable)" % (ob.name, _pp(r["part"])))
